@@ -102,7 +102,6 @@ PROP = dict(
         "quotient; checked per run: a run where it is not is reported as a correspondence failure); f64 vertex weights are not covered",
         "symmetric adjacency (as sets of neighbours and as summed weights), neighbour ids < n",
         "the cap is trunc(ideal + max_imbalance * ideal) as computed in f64 by the code (cap_of); its relation to the real number is not proved",
-        "termination / fairness are not claimed (proved: no reachable state of the machine is stuck or panics)",
     ],
 )
 
@@ -113,13 +112,14 @@ MANIFEST = dict(
          "C05_arcswap_mutex (no two workers past their neighbour check on equal/adjacent vertices), C05_arcswap_gain_exact (the "
          "gain about to be stored is the cut delta in the current state), C05_arcswap_accounting (cut0 - cut = recorded gains >= 0, "
          "valid ids, move_count >= relabelled), C05_arcswap_caps (every part <= max(input weight, cap), integer weights), "
-         "C05_arcswap_no_panic (no stuck or panicking state), C05_arcswap_safe / C05_replayed_run_safe (arc_swap's own "
+         "C05_arcswap_no_panic (no stuck or panicking state), C05_arcswap_terminates (no infinite schedule: a lexicographic measure "
+         "decreases at every access), C05_arcswap_safe / C05_replayed_run_safe (arc_swap's own "
          "configuration; an accepted trace is a schedule). The Rust code is tied to the machine by a translator (statement order and "
          "literals of make_move re-read on every run) and by replaying, event by event, the traces of 1.5k/10k runs under a "
          "controlled scheduler (systematic preemption sweeps + random/adversarial policies); a certified checker judges each output.",
     design_ref="DESIGN.md §7 C05; docs/C05.md",
     note="Proof level holds for the model under sequentially consistent interleavings; model<->code is correspondence on explored "
-         "schedules + translator. Not covered: hardware memory model, f64 weights, weights above 2^53, termination. Known finding "
+         "schedules + translator. Not covered: hardware memory model, f64 weights, weights above 2^53. Known finding "
          "(reported): unsigned weight types underflow `max_part_weight - pw` (debug panic / release: cap not enforced), stream "
          "gated on known_findings.json class arcswap-unsigned-weights.",
     technique="Coq proof (inductive invariants over schedules) + translator + controlled-scheduler trace replay + certified checker",
